@@ -36,7 +36,8 @@ TwelveR == [Twelve EXCEPT !.m = [j \in 1..12 |-> Twelve.m[RemP(j * 5 + 2, 12) + 
 DocsApply == {
   VObj(<< <<KA, VArr(<<N1, N2>>)>>, <<KAA, N2>>, <<KSL, VObj(<< <<KTI, N1>> >>)>> >>),
   VArr(<< N1, VObj(<< <<KA, N1>>, <<KB, VArr(<<>>)>> >>), VArr(<<N2>>) >>),
-  VObj(<< <<KB, N1>>, <<KA, N2>> >>), VArr(<<>>), VObj(<<>>), N1 }
+  VObj(<< <<KB, N1>>, <<KA, N2>> >>), VArr(<<>>), VObj(<<>>), N1, S(<<120, 121>>),
+  VObj(<< <<KA, S(<<120>>)>>, <<KB, VObj(<< <<KA, S(<<121>>)>> >>)>> >>) }
 BigDocsApply == {Wide(1001), Wide(1200), VObj(<< <<KA, Wide(1001)>> >>), TenA}
 
 \* ---- pointers worth trying in a document ----
